@@ -266,6 +266,15 @@ def gen_case(rng, flavour):
         i = rng.randrange(len(s))
         lines.append(f"murmur {seed} {hx(s[i:i + k])}")
     lines.append(f"murmur {rng.choice(SEEDS)} {hx(s[:rng.randint(0, 40)])}")
+    # translate_codon / aa_to_dayhoff / aa_to_hp, the small FFI helpers
+    r = rng.random()
+    if r < 0.5:
+        cod = bytes(rng.choice(b"ACGTACGTACGTNRYacgtn*X") for _ in range(rng.choice([3, 3, 3, 3, 2, 1, 0, 4])))
+        if rng.random() < 0.03:
+            cod = rng.choice([b"AC\0", "é".encode() + b"A", b"\xffAA", b"A\0\0"])
+        lines.append(f"codon {hx(cod)}")
+    if r > 0.6:
+        lines.append(f"aa {rng.choice(['dayhoff', 'hp'])} {rng.choice(list(AA20) + list(b'XBZJUOacdx') + [0, 255, 128])}")
     # seq_to_hashes in every mode
     for force, baz in ((0, 0), (1, 0), (1, 1)):
         lines.append(f"s2h {mol} {k} {seed} {force} {baz} {isprot} {mode} {H}")
@@ -277,6 +286,10 @@ def gen_case(rng, flavour):
     if not isprot and is_ascii(s):
         # strand symmetry: the reverse complement (code's own complement table) must give the same multiset
         lines.append(f"s2h {mol} {k} {seed} 1 0 0 bytes {hx(mixcase(rng, rc_any(up(s)), 0.2))}")
+    # the command line: `sourmash sketch dna|translate|protein` on a FASTA file of the records
+    if k >= 1 and len(s) >= 1 and all(65 <= b <= 90 or 97 <= b <= 122 or b == 42 for b in s) and rng.random() < 0.35:
+        extra_rec = gen_seq(rng, rng.randint(1, 25), "aa" if isprot else "acgt")
+        lines.append(f"sketch {mol} {k} {seed} {0 if isprot else rng.randint(0, 1)} {isprot} {H} {hx(extra_rec)}")
     # kmers_and_hashes (ASCII only)
     if all(b < 128 for b in s):
         lines.append(f"kah {mol} {k} {seed} 0 {isprot} {H}")
@@ -355,7 +368,34 @@ def check_op(line, out):
     if not w or out == "bad-op":
         return None
     op = w[0]
+    if " VIEW:" in out:
+        what = out.split(" VIEW:")[1]
+        return "C02:view:" + what.split("+")[0], (
+            f"`{line}`: two routes / views of the same thing disagree in the real code: {what} "
+            f"(observation: {out.split(' VIEW:')[0][:80]})")
     try:
+        if op == "sketch":
+            check, isprot = w[4] == "1", w[5] == "1"
+            if isprot:
+                line2 = " ".join(["addprot", w[1], w[2], w[3]] + w[6:])
+            else:
+                line2 = " ".join(["addseq", w[1], w[2], w[3], "0" if check else "1"] + w[6:])
+            r = check_op(line2, "err CLI " if out == "err" else out)
+            return None if r is None else (r[0].replace("add_sequence", "sketch-cli"), f"`{line}`: " + r[1])
+        if op == "codon":
+            c = unhx(w[1])
+            if 1 <= len(c) <= 3 and 0 not in c and is_ascii(c) and c == up(c):
+                # a codon missing its last letter(s) is read as xyN / xNN: only a four-fold degenerate pair decides
+                exp = ref_codon(c + b"N" * (3 - len(c)))
+                if out != f"ok {exp}":
+                    return "C02:translate_codon:value", f"translate_codon({c!r}) = {out}, the standard table says {chr(exp)}"
+            return None
+        if op == "aa":
+            b = int(w[2])
+            exp = (DAYHOFF if w[1] == "dayhoff" else HP).get(b, 88)
+            if out != f"ok {exp}":
+                return "C02:aa_to_" + w[1] + ":value", f"aa_to_{w[1]}({b}) = {out}, the class table says {exp}"
+            return None
         if op == "murmur":
             data = unhx(w[2])
             exp = murmur64(data, int(w[1]))
